@@ -1361,6 +1361,16 @@ def __is_method_defined_in_class(class_: type | types.UnionType, method: object)
     return class_ == get_class_that_defined_method(method)
 
 
+def __is_ignored_method(type_info: TypeInfo, method_name: str) -> bool:
+    """Whether the method of a class is listed in the ``ignore_methods`` configuration.
+
+    Module-level functions are filtered by ``_is_blacklisted``; methods are only
+    discovered while analysing their class, so their fully-qualified name
+    ``module.Class.method`` is checked here.
+    """
+    return f"{type_info.full_name}.{method_name}" in config.configuration.ignore_methods
+
+
 @dataclasses.dataclass
 class CallableData:
     """Provides all information on callables.
@@ -1686,6 +1696,7 @@ def __analyse_method(
         or __should_skip_by_visibility(method_name.rpartition(".")[2], add_to_test=add_to_test)
         or __is_constructor(method_name)
         or not __is_method_defined_in_class(type_info.raw_type, method)
+        or __is_ignored_method(type_info, method_name)
     ):
         LOGGER.debug("Skipping method %s from analysis", method_name)
         return
